@@ -73,3 +73,34 @@ Example hist_V_run :
   existsb (fun kg => match snd kg with Some 5%N => true | _ => false end) (graves (w_st (reach cfU hist_V))) = true /\
   repl_ok_st (w_st (reach cfU hist_V)) = true.
 Proof. vm_compute. split; [discriminate | repeat split]. Qed.
+
+(* ---- the instant of the replacement (Proofs/C05RUser7.v) ---- *)
+From Sessions Require Import Proofs.C05RUser6 Proofs.C05RUser7.
+
+(* JSON store; the session is created, logs in, and 10.7 s later a request
+   rotates its ID (draws KGen 2); later a wait, LogOut(5), a purge, cache loss *)
+Definition hist_I1 : list hop := [ rq 1 true [SLogIn (5, 1)%N false]; HWait (10 * sec + 700000000) ].
+Definition req_I : reqstep := mkReqStep 1 PJar false A1 7 [SRegen] [] [] None.
+Definition hist_I2 : list hop := [ HWait (5 * sec); HLogoutUser 5 [] []; HPurge [] []; HDropCache; HWait (7 * sec) ].
+
+Example instant_hyps :
+  Forall ff_hop hist_I1 /\ Forall crash_free hist_I1 /\ Forall ff_hop hist_I2 /\ Forall crash_free hist_I2.
+Proof. repeat split; repeat constructor. Qed.
+
+Example instant_run :
+  let w := reach cfU hist_I1 in let w1 := fst (step w (HReq req_I)) in
+  now (w_st w) = 10 * sec + 700000000 /\ supply (w_st w) = 2%N /\ supply (w_st w1) = 3%N /\
+  option_map (fun rc => (r_ref rc, r_created rc, r_access rc)) (lookup (store (w_st (after w1 hist_I2))) (KGen 1)) =
+    Some (Some (KGen 2), 10 * sec, 10 * sec) /\
+  flo (10 * sec + 700000000) = 10 * sec.
+Proof. vm_compute. repeat split. Qed.
+
+Example instant_applies :
+  let w := reach cfU hist_I1 in let w1 := fst (step w (HReq req_I)) in
+  forall rc, lookup (store (w_st (after w1 hist_I2))) (KGen 1) = Some rc -> r_ref rc = Some (KGen 2) ->
+    r_created rc = r_access rc /\ (r_access rc = now (w_st w) \/ r_access rc = flo (now (w_st w))).
+Proof.
+  cbv zeta. intros rc Hl Hr. destruct instant_hyps as (A & B & C & D).
+  apply (replaced_instant (reach cfU hist_I1) req_I hist_I2 (TW_reach cfU hist_I1 A B) eq_refl eq_refl C D (KGen 1) rc 2%N Hl Hr).
+  vm_compute. split; [discriminate | reflexivity].
+Qed.
